@@ -154,6 +154,8 @@ Definition chk_step (w : which) (k : chk) (o : op) (ob : obs) : bool * chk :=
       (f =? build_frame_spec (g_add (k_G k) e') (k_vals k) 0, k)
     else (true, k)
   | OpB _, ObsB (Err _) => (negb (w_c04 w), k)
+  | OpV, ObsV vs =>
+    (if w_c02 w then list_eqb (map fst vs) (map fst (k_vals k)) && list_eqb (map snd vs) (map snd (k_vals k)) else true, k)
   | OpQ a b, ObsQ r => (if w_c04 w then Bool.eqb r (fc_graph (k_G k) (k_vals k) a b) else true, k)
   | OpR, ObsR r bl ldf ep =>
     (if w_c02 w then match r, bl with None, [] => (ldf =? k_nb k) && (ep =? k_epoch k) | _, _ => false end else true, k)
